@@ -1,8 +1,16 @@
 #!/bin/sh
-# usage: tools/mut.sh <prop> <file-rel-to-repo> <sed-expr> [unit-filter]   -- run one property's units on a mutated scratch copy
+# usage: tools/mut.sh <contract-module> <file-rel-to-repo> <python-expr old> <python-expr new> [unit-filter]
+# run one module's units on a scratch copy in which the FIRST occurrence of the text <old> in the file is replaced by <new>
 D=$(mktemp -d /tmp/pyvc_mut.XXXXXX)
 cp -r /repo/pgradd "$D/pgradd"
-sed -i "$3" "$D/$2"
-if diff -q "$D/$2" "/repo/$2" >/dev/null; then echo "MUTATION DID NOT APPLY"; rm -rf "$D"; exit 9; fi
-PYVC_REPO="$D" /verif/.venv/bin/python /tmp/t1.py "$1" $4 2>&1 | cut -c1-260 | grep -v '^WARNING' | grep -E '^==|Counter|sat |unknown|ERR'
+python3 - "$D/$2" "$3" "$4" <<'PY' || { echo "MUTATION DID NOT APPLY"; rm -rf "$D"; exit 9; }
+import sys
+p, old, new = sys.argv[1:]
+old = old.encode().decode('unicode_escape'); new = new.encode().decode('unicode_escape')
+s = open(p).read()
+assert old in s, 'pattern not found'
+open(p, 'w').write(s.replace(old, new, 1))
+PY
+/venv/bin/python -m py_compile "$D/$2" || { echo "MUTANT DOES NOT COMPILE"; rm -rf "$D"; exit 9; }
+PYVC_REPO="$D" /verif/.venv/bin/python /verif/tools/run_units.py "$1" $5 2>&1 | grep -v '^WARNING' | cut -c1-300
 rm -rf "$D"
